@@ -207,6 +207,77 @@ func closedForms(r *vlib.Run) {
 		c.Nontrivial(fmt.Sprint("shadowed", wit))
 	})
 
+	// a glossy wall seen in a mirror floor under a point light (MaxDepth 1): the light reflected by
+	// the wall towards the floor point depends on the direction wall -> floor, not on where the
+	// camera is. Closed form per pixel: floor term + reflectance * cos * (light shading * the
+	// wall's BSDF for light direction -> direction back to the floor point); the floor is a
+	// caller-defined material with a constant BSDF that always continues along the mirror direction.
+	r.Section("closed.mirrored-glossy-wall", r.N(60, 2400), vlib.SectionOpts{Sequential: true}, func(c *vlib.Case) {
+		rng := c.Rng
+		xw := 2 + rng.Float64()*2
+		src := model3d.XYZ(-1-2*rng.Float64(), rng.NormFloat64(), 2+rng.Float64()*3)
+		dst := model3d.XYZ(xw*(0.2+0.5*rng.Float64()), rng.NormFloat64()*0.5, 0)
+		cam := render3d.NewCameraAt(src, dst, 0.3+rng.Float64()*0.4)
+		refl := 0.3 + 0.6*rng.Float64()
+		floorMat := &mirrorFloor{k: refl}
+		wallMat := &render3d.PhongMaterial{Alpha: []float64{2, 5, 20, 60}[rng.Intn(4)],
+			SpecularColor: render3d.NewColor(0.2 + 0.6*rng.Float64()), DiffuseColor: render3d.NewColorRGB(0.3*rng.Float64(), 0.3*rng.Float64(), 0.3*rng.Float64())}
+		floor := &render3d.ColliderObject{Collider: model3d.NewRect(model3d.XYZ(-100, -100, -1), model3d.XYZ(100, 100, 0)), Material: floorMat}
+		wall := &render3d.ColliderObject{Collider: model3d.NewRect(model3d.XYZ(xw, -100, 0), model3d.XYZ(xw+1, 100, 100)), Material: wallMat}
+		light := &render3d.PointLight{Origin: model3d.XYZ(xw*rng.Float64()*0.8-0.5, rng.NormFloat64()*2, 1+rng.Float64()*5),
+			Color: render3d.Color{X: 0.5 + rng.Float64(), Y: 0.5 + rng.Float64(), Z: 0.5 + rng.Float64()}, QuadDropoff: rng.Intn(2) == 0}
+		w, h := 4+rng.Intn(10), 4+rng.Intn(10)
+		ph := newPinhole(cam, w, h)
+		nP, nQ := model3d.XYZ(0, 0, 1), model3d.XYZ(-1, 0, 0)
+		want := make([]render3d.Color, w*h)
+		for y := 0; y < h; y++ {
+			for x := 0; x < w; x++ {
+				idx := y*w + x
+				want[idx] = render3d.Color{X: math.NaN()}
+				d := ph.x.Scale((float64(x) - ph.cx) / ph.cx).Add(ph.y.Scale((float64(y) - ph.cy) / ph.cy)).Add(ph.z)
+				if d.Z >= -1e-6 {
+					continue
+				}
+				P := src.Add(d.Scale(-src.Z / d.Z))
+				if P.X > xw-0.05 || P.X < -99 || math.Abs(P.Y) > 99 {
+					continue
+				}
+				dest := d.Normalize().Scale(-1)
+				out := nP.Scale(2 * nP.Dot(dest)).Sub(dest) // mirror direction, leaving P
+				if out.X <= 1e-6 {
+					continue
+				}
+				Q := P.Add(out.Scale((xw - P.X) / out.X))
+				if Q.Z < 0.05 || Q.Z > 99 || math.Abs(Q.Y) > 99 {
+					continue
+				}
+				direct := light.ShadeCollision(nP, light.Origin.Sub(P)).Scale(refl)
+				back := P.Sub(Q).Normalize()
+				atQ := light.ShadeCollision(nQ, light.Origin.Sub(Q)).Mul(wallMat.BSDF(nQ, Q.Sub(light.Origin).Normalize(), back))
+				want[idx] = direct.Add(atQ.Scale(refl * math.Abs(out.Dot(nP))))
+			}
+		}
+		scene := render3d.JoinedObject{floor, wall}
+		img := render3d.NewImage(w, h)
+		(&render3d.RecursiveRayTracer{Camera: cam, Lights: []*render3d.PointLight{light}, MaxDepth: 1, NumSamples: 1 + rng.Intn(3)}).Render(img, scene)
+		wit := map[string]interface{}{"camera": fmt.Sprint(src, dst, cam.FieldOfView), "light": fmt.Sprint(*light), "wall_x": xw, "wall": fmt.Sprint(*wallMat), "floor_reflectance": refl, "w": w, "h": h}
+		decided := 0
+		for idx := range want {
+			if math.IsNaN(want[idx].X) {
+				continue
+			}
+			decided++
+			c.Count("closed.mirrored_wall_pixels", 1)
+			if !relClose(img.Data[idx], want[idx], 1e-7) {
+				c.Violation("render3d.RecursiveRayTracer.Render/glossy-surface-lit-by-a-point-light-seen-after-a-bounce", fmt.Sprintf("pixel %d = %v, closed form %v", idx, img.Data[idx], want[idx]), wit)
+				return
+			}
+		}
+		if decided > 0 {
+			c.Nontrivial(fmt.Sprint("mirrored", wit))
+		}
+	})
+
 	// a closed matte room with a spherical lamp: much of what the camera sees has bounced between
 	// the walls. Three estimators that integrate exactly the light paths of at most d+1 vertices
 	// (lamp included) - the recursive tracer with MaxDepth d, the bidirectional tracer with eye
@@ -573,3 +644,17 @@ func objects(r *vlib.Run) {
 		c.Nontrivial(fmt.Sprint("xform", kind, mesh.NumTriangles()))
 	})
 }
+
+// mirrorFloor is a caller-defined material: a constant BSDF, and the next ray always leaves along
+// the mirror direction (density 1 for that direction).
+type mirrorFloor struct{ k float64 }
+
+func (m *mirrorFloor) BSDF(normal, source, dest model3d.Coord3D) render3d.Color {
+	return render3d.NewColor(m.k)
+}
+func (m *mirrorFloor) SampleSource(gen *rand.Rand, normal, dest model3d.Coord3D) model3d.Coord3D {
+	return normal.Scale(2 * normal.Dot(dest)).Sub(dest).Scale(-1)
+}
+func (m *mirrorFloor) SourceDensity(normal, source, dest model3d.Coord3D) float64 { return 1 }
+func (m *mirrorFloor) Emission() render3d.Color                                   { return render3d.Color{} }
+func (m *mirrorFloor) Ambient() render3d.Color                                    { return render3d.Color{} }
